@@ -18,9 +18,20 @@
    symbols obtained by writing the records in order (first declared element leftmost); afterwards no vector is marked as
    changed.  vec_update_exact is the per-record description (is_second_change: a second, different write of an element
    first hands over the value before it - a delta glitch stays visible; full_signal_has_changed: early hand-over).
-   NOT proved: that the history is the one the section bytes encode in GHDL's sense, the hierarchy; those are decided by the correspondence run on signal sections and by the GHW
+   cycle_signals_vectors / cycle_vectors_step (Proofs/GhwCycleProofs.v), from the bytes: the value part of a cycle - records
+   `LEB128(distance to the previous record's signal) value-byte`, ended by distance 0 - that addresses elements of std_logic /
+   bit vectors makes exactly the vector-buffer updates time_step_spec speaks about, in file order, the element's GHW signal
+   index being the running sum of the distances minus one and the symbol the STD_LOGIC_LUT code of the byte (or the bit);
+   composed with time_step_spec: what the store is handed for such a cycle, stated on its bytes.
+   cycle_loop_vectors: a whole run of such cycles (each `records, 0, signed LEB128 distance to the next time`, the last one
+   negative) hands the store, per cycle, its time stamp followed by the trace of that step (cycles_spec) - a distance of 0
+   (a delta cycle) repeats the time stamp, which C02's table theorem turns into the same time index.
+   snapshot_vectors: the snapshot section (one value byte per signal, in signal order) of vector elements is the same kind of
+   update script.
+   NOT proved: the same composition for the scalar value types (read_signals_ops /
+   read_signals_time_table give well-formedness and the time table for all of them), the hierarchy; those are decided by the correspondence run on signal sections and by the GHW
    file generator (MANIFEST level_note). *)
-From WV Require Import Model.Base Model.Bits Model.WaveMem Model.Ghw Spec.TimeSpec Proofs.TimeTableProofs Proofs.BitsProofs Proofs.StoreProofs Proofs.RawProofs Proofs.VecProofs Proofs.VecStepProofs Proofs.GhwProofs.
+From WV Require Import Model.Base Model.Bits Model.WaveMem Model.Ghw Spec.TimeSpec Proofs.TimeTableProofs Proofs.BitsProofs Proofs.StoreProofs Proofs.RawProofs Proofs.VecProofs Proofs.VecStepProofs Proofs.GhwProofs Proofs.GhwCycleProofs Model.Leb128.
 From Coq Require Import Sorted List. Import ListNotations.
 Open Scope N_scope.
 
@@ -121,6 +132,104 @@ Check (eq_refl : apply_update = fun vecs0 S u =>
   | _, _ => S
   end).
 
+(* from the bytes of a cycle to the updates of the vector buffer *)
+Check cycle_signals_vectors :
+  forall sigs rs pos vb e rest script fuel,
+  script_of sigs pos rs = Some script -> recs_ok pos rs -> consistent sigs vb -> (length rs < fuel)%nat ->
+  cycle_signals fuel sigs pos vb e (concat (map rec_bytes rs) ++ 0 :: rest)
+  = match run_updates vb e script with
+    | Ok (vb', e') => Ok (Some (vb', e', rest))
+    | Err => Err
+    | Panic => Panic
+    end.
+Check cycle_vectors_step :
+  forall (lz_compress : list byte -> list byte) (cap : N) (parse_f64 : list byte -> option (list byte))
+         sigs rs vb SS e rest script vb1 e1 rest' vb2 e2,
+  script_of sigs 0 rs = Some script -> recs_ok 0 rs -> consistent sigs vb ->
+  vbinv vb SS -> vb_change_list vb = [] ->
+  (forall id v, nth_error (vb_vecs vb) id = Some v -> ve_signal_change v = false) ->
+  cycle_signals (S (length rs)) sigs 0 vb e (concat (map rec_bytes rs) ++ 0 :: rest) = Ok (Some (vb1, e1, rest')) ->
+  finish_time_step vb1 e1 = Ok (vb2, e2) ->
+  rest' = rest /\
+  let vecs0 := vb_vecs vb in
+  let S2 := fold_left (apply_update vecs0) script SS in
+  let touched := map (fun u : nat * nat * N => fst (fst u)) script in
+  exists T,
+    run_ops parse_f64 lz_compress cap e (ops_of_trace vecs0 T) = Ok e2 /\
+    vbinv vb2 S2 /\ vb_change_list vb2 = [] /\
+    (forall id v, nth_error (vb_vecs vb2) id = Some v -> ve_signal_change v = false) /\
+    (forall id syms, nth_error S2 id = Some syms -> In id touched -> last_opt (for_id id T) = Some syms) /\
+    (forall id, ~ In id touched -> for_id id T = [] /\ nth_error S2 id = nth_error SS id).
+Check (eq_refl : rec_bytes = fun r => leb_write (fst r) ++ [snd r]).
+Check (eq_refl : script_of = fix script_of sigs pos rs :=
+  match rs with
+  | [] => Some []
+  | (delta, g) :: r =>
+    let pos' := pos + delta in
+    match nth_error sigs (N.to_nat (pos' - 1)) with
+    | Some info =>
+      match gs_vec info, vec_value (gs_tpe info) g, script_of sigs pos' r with
+      | Some vid, Some (value, _), Some s => Some ((vid, N.to_nat (pos' - 1), value) :: s)
+      | _, _, _ => None
+      end
+    | None => None
+    end
+  end).
+Check (eq_refl : vec_value = fun t g =>
+  match t with
+  | GNineVec => option_map (fun v => (v, Nine)) (nth_error std_logic_lut (N.to_nat g))
+  | GTwoVec => if 1 <? g then None else Some (g, Two)
+  | _ => None
+  end).
+Check cycle_vectors_example.
+
+(* a whole cycle section: several cycles, each `records, 0, signed LEB128 distance to the next time` (negative: the last) *)
+Check cycle_loop_vectors :
+  forall (parse_f64 : list byte -> option (list byte)) (lz_compress : list byte -> list byte) (cap : N)
+         vecs0 sigs cs time vb SS e rest fuel vb' e' rest',
+  dts_shape cs -> Forall dt_ok cs ->
+  Forall (fun c => recs_ok 0 (c_recs c) /\ exists script, script_of sigs 0 (c_recs c) = Some script) cs ->
+  same_shape vecs0 (vb_vecs vb) -> consistent sigs vb -> vbinv vb SS -> vb_change_list vb = [] ->
+  (forall id v, nth_error (vb_vecs vb) id = Some v -> ve_signal_change v = false) ->
+  (length cs <= fuel)%nat ->
+  cycle_loop lz_compress cap fuel sigs time vb e (concat (map cyc_bytes cs) ++ rest) = Ok (Some (vb', e', rest')) ->
+  rest' = rest /\
+  exists ops Sf,
+    cycles_spec vecs0 sigs time SS cs ops Sf /\ run_ops parse_f64 lz_compress cap e ops = Ok e' /\
+    vbinv vb' Sf /\ same_shape vecs0 (vb_vecs vb') /\ vb_change_list vb' = [] /\
+    (forall id v, nth_error (vb_vecs vb') id = Some v -> ve_signal_change v = false).
+Check (CsLast :
+  forall vecs0 sigs c time SS script T,
+  (c_dt c < 0)%Z -> script_of sigs 0 (c_recs c) = Some script -> step_ok vecs0 SS script T ->
+  cycles_spec vecs0 sigs time SS [c] (OpTime time :: ops_of_trace vecs0 T) (fold_left (apply_update vecs0) script SS)).
+Check (CsMore :
+  forall vecs0 sigs c cs time SS script T ops Sf,
+  (0 <= c_dt c)%Z -> script_of sigs 0 (c_recs c) = Some script -> step_ok vecs0 SS script T ->
+  cycles_spec vecs0 sigs (u64_wrap (time + Z.to_N (c_dt c))) (fold_left (apply_update vecs0) script SS) cs ops Sf ->
+  cycles_spec vecs0 sigs time SS (c :: cs) (OpTime time :: ops_of_trace vecs0 T ++ ops) Sf).
+Check (eq_refl : step_ok = fun vecs0 SS script T =>
+  let S2 := fold_left (apply_update vecs0) script SS in
+  let touched := map (fun u : nat * nat * N => fst (fst u)) script in
+  (forall id syms, nth_error S2 id = Some syms -> In id touched -> last_opt (for_id id T) = Some syms) /\
+  (forall id, ~ In id touched -> for_id id T = [] /\ nth_error S2 id = nth_error SS id)).
+
+(* the snapshot section: one value byte per signal, in signal order *)
+Check snapshot_vectors :
+  forall sigs bs idx vb e rest script,
+  snap_script sigs idx bs = Some script -> consistent sigs vb ->
+  snapshot_signals sigs (length bs) idx vb e (bs ++ rest)
+  = match run_updates vb e script with
+    | Ok (vb', e') => Ok (Some (vb', e', rest))
+    | Err => Err
+    | Panic => Panic
+    end.
+Check (eq_refl : cyc_bytes = fun c => concat (map rec_bytes (c_recs c)) ++ 0 :: c_dt_bytes c).
+Check (eq_refl : dt_ok = fun c => forall rest, sleb_read (c_dt_bytes c ++ rest) = Some (c_dt c, rest)).
+
+Print Assumptions cycle_signals_vectors.
+Print Assumptions cycle_vectors_step.
+Print Assumptions cycle_loop_vectors.
+Print Assumptions snapshot_vectors.
 Print Assumptions ve_set_spec.
 Print Assumptions time_step_spec.
 Print Assumptions read_signals_ops.
